@@ -62,6 +62,37 @@ Spellings == {"pretty", "reversed", "escaped_keys", "escaped_strings"}
 Lit(S) == {"v:" \o s : s \in S}
 
 \* ------------------------------------------------------------------------
+\* Room-ID shapes across the families of room versions
+\* ------------------------------------------------------------------------
+\* A room ID has one of two shapes: with a domain ("!opaque:domain": every version below 12 and the unstable versions
+\* built on them) or domainless ("!" followed by the 43 URL-safe base64 characters of the create event's reference
+\* hash: version 12 and what is built on it).  One type (spec.RoomID) serves both, and part of its interface is
+\* partial (Domain() of a domainless ID).  A remote server can send, into a room of one family, an event - the create
+\* event in particular - whose room ID has the shape of the OTHER family.  Whatever the parser decides about it,
+\* every later stage (auth check of the event itself, auth chain, state response, state resolution, handlers) has to
+\* answer `ok | error` (NoPanic): the dimension is enumerated by CrossShapeClasses.
+RoomIDShape(v) == IF DomainlessRoomIDs(v) THEN "domainless" ELSE "domain"
+OtherShape(s) == IF s = "domainless" THEN "domain" ELSE "domainless"
+\* The members of a shape and its nearest neighbours:
+\*   domainless - 43 URL-safe characters unrelated to the room (opaque43); the very ID the domainless family derives
+\*                for this room, "!" + the create event's ID without its sigil (opaque_create); the same length in the
+\*                standard base64 alphabet ('+', '/'), one character short, one character long;
+\*   domain     - a well-formed ID of another room (other), 43 URL-safe characters followed by a domain, the derived ID
+\*                followed by a domain.
+ShapeClasses(s) ==
+    IF s = "domainless" THEN {"opaque43", "opaque_create", "opaque43_std", "opaque42", "opaque44"}
+    ELSE {"other", "opaque43_domain", "opaque_create_domain"}
+ShapeStrings == ShapeClasses("domain") \cup ShapeClasses("domainless")
+\* the classes offered as the room ID of a subject of type t in a room of version v: the shape of the other family
+\* (where event IDs carry a domain themselves there is no derived domainless ID); and where the room ID is derived
+\* from the create event, a create event that carries a room_id at all has the layout of the other family, so the
+\* family's own shape is foreign there too
+CrossShapeClasses(v, t) ==
+    LET foreign == ShapeClasses(OtherShape(RoomIDShape(v)))
+    IN (IF EventFormat(v) = 1 THEN foreign \ {"opaque_create"} ELSE foreign)
+         \cup (IF DomainlessRoomIDs(v) /\ t = "create" THEN {"opaque43", "opaque_create"} ELSE {})
+
+\* ------------------------------------------------------------------------
 \* Subjects: event types, their fields (path, kind, group) and the classes a field ranges over
 \* ------------------------------------------------------------------------
 Types == {"create", "member", "member_tpi", "power_levels", "join_rules", "third_party_invite",
